@@ -91,6 +91,8 @@ def gen(rng, tier):
     scan_kind = str(rng.choice(["none", "custom", "custom", "line", "grid"]))
     scan = {"kind": scan_kind, "pos": rng.random((int(rng.integers(1, 4)), 2)).round(4).tolist(),
             "gpts": [int(rng.integers(1, 4)), int(rng.integers(1, 4))], "endpoint": bool(rng.random() < 0.5)}
+    if 1 in scan["gpts"]:
+        scan["endpoint"] = False        # one-point scans with endpoint have zero extent (not judged here, see C20)
     detector = str(rng.choice(["none", "annular", "flexible", "pixelated", "segmented", "two"]))
     if source == "smatrix" and detector == "none":
         detector = "annular"
@@ -99,7 +101,7 @@ def gen(rng, tier):
         "sigma_kind": sk, "sigmas": sv, "seed": seed,
         "directions": str(rng.choice(["xyz", "xyz", "xy", "x", "y", "z", "yx", "zx", "zyx"])),
         "ensemble_mean": bool(rng.random() < 0.5), "exit_planes": ep, "builder": builder, "scan": scan,
-        "detector": detector, "lazy": bool(rng.random() < 0.5), "max_batch": rng.choice(["auto", "auto", 1, 2]).item(),
+        "detector": detector, "lazy": bool(rng.random() < 0.5), "max_batch": ["auto", "auto", 1, 2][int(rng.integers(0, 4))],
         "energy": float(rng.choice([60e3, 100e3, 200e3, 300e3])),
         "projection": str(rng.choice(["infinite", "infinite", "infinite", "finite"])),
         "defocus": float(rng.uniform(-50, 80)), "semiangle": float(rng.uniform(12, 28)),
@@ -256,7 +258,7 @@ def _simulate(case, potential, lazy, max_batch="auto"):
             scan = _scan(case, potential.extent)
             if scan is None:
                 scan = abtem.CustomScan(np.array([[0.3, 0.4]]) * np.array(potential.extent))
-            out = s.scan(scan=scan, detectors=_detectors(case, cutoff), lazy=lazy, max_batch=max_batch)
+            out = s.scan(scan=scan, detectors=_detectors(case, cutoff), lazy=lazy, max_batch_multislice=max_batch)
         else:
             b = _builder(case)
             b.grid.match(potential)
